@@ -505,9 +505,16 @@ class EvolvableDistribution(EvolvableWrapper):
         :return: Cloned distribution.
         :rtype: EvolvableDistribution
         """
-        return EvolvableDistribution(
+        clone = EvolvableDistribution(
             action_space=self.action_space,
             network=self.wrapped.clone(),
             action_std_init=self.action_std_init,
+            squash_output=self.squash_output,
             device=self.device,
         )
+
+        # The learned standard deviation is part of the distribution
+        if isinstance(self.action_space, spaces.Box):
+            clone.log_std.data.copy_(self.log_std.data)
+
+        return clone
